@@ -498,6 +498,71 @@ class AsyncSrcDelegating:
         return self._inner.aclose()
 
 
+class _EagerStep:
+    """Awaitable of ``AsyncSrcEagerStart``: the request is already under way, awaiting merely waits for it."""
+
+    __slots__ = ("st", "outcome")
+
+    def __init__(self, st: SrcState, outcome: Any):
+        self.st, self.outcome = st, outcome
+
+    def __await__(self) -> Any:
+        st = self.st
+        try:
+            if st.plan.susp:
+                yield from Suspend(("src", st.sid), st.plan.susp).__await__()
+        finally:
+            st.active -= 1
+        kind, value = self.outcome
+        if kind == "item":
+            return value
+        if kind == "end":
+            raise StopAsyncIteration
+        raise value
+
+
+class AsyncSrcEagerStart(AsyncSrc):
+    """A future-style channel: ``__anext__`` is a plain method that STARTS the fetch when it is called (the item is
+    taken from the stream right then) and hands back an awaitable for its completion.  A request that is started and
+    never awaited loses its item; two requests started at once are two consumers in the source at the same time."""
+
+    def __anext__(self) -> Any:  # type: ignore[override]
+        st = self.st
+        if st.closed and st.honour_close:
+            st.use_after_close += 1
+            st.active += 1
+            return _EagerStep(st, ("end", None))
+        st.active += 1
+        if st.active > 1:
+            st.overlap += 1
+        if st.active > st.max_active:
+            st.max_active = st.active
+        st.begin()
+        try:
+            return _EagerStep(st, ("item", st.commit()))
+        except _EndType:
+            return _EagerStep(st, ("end", None))
+        except BaseException as exc:  # noqa: BLE001 - a planned fault: delivered when awaited
+            return _EagerStep(st, ("raise", exc))
+
+
+class AsyncSrcPlainNext(AsyncSrc):
+    """A hand-written async iterator whose ``__anext__`` is a plain method: it hands out an awaitable - and when it
+    fails it fails right there, when CALLED (a front-end forwarding to an inner object that is gone), not when the
+    result is awaited.  The failure is the source's either way."""
+
+    def __anext__(self) -> Any:  # type: ignore[override]
+        st = self.st
+        plan = st.plan
+        if plan.fault_at is not None and st.uses + 1 == plan.fault_at and not (st.closed and st.honour_close):
+            st.begin()
+            st.faulted = True
+            if st.log:
+                CTX.ev("fault", st.sid)
+            raise plan.exc  # type: ignore[misc]
+        return AsyncSrc.__anext__(self)
+
+
 class AsyncIterable:
     """An async *iterable* that is not its own iterator (a collection, a query): asked for an iterator it hands out
     a fresh one.  The counterparts call ``iter()`` on each argument exactly once; a second request would, for a
@@ -521,7 +586,8 @@ class AsyncIterable:
 
 
 class SyncIterable:
-    """The synchronous twin of ``AsyncIterable``."""
+    """The synchronous twin of ``AsyncIterable``: a *sized*, lazily produced collection (a dataset / record store with
+    ``__len__`` and ``__iter__``) - knowing how many items there will be is no reason to fetch them ahead of time."""
 
     def __init__(self, st: SrcState):
         self.st = st
@@ -529,6 +595,9 @@ class SyncIterable:
 
     def __bool__(self) -> bool:
         return False
+
+    def __len__(self) -> int:
+        return len(self.st.items)
 
     def __iter__(self) -> Any:
         self.asked += 1
@@ -563,7 +632,7 @@ async def _async_gen(st: SrcState):
 
 FLAVOURS_SYNC = ("list", "tuple", "getitem_seq", "sync_iter", "sync_gen", "sync_iterable")
 FLAVOURS_ASYNC = ("async_gen", "async_class", "async_class_bare", "async_class_full", "async_class_asend",
-                  "async_class_future", "async_class_proxy", "async_class_lazy", "async_iterable", "async_class_lateclose", "async_class_delegating")
+                  "async_class_future", "async_class_proxy", "async_class_lazy", "async_iterable", "async_class_lateclose", "async_class_delegating", "async_class_plainnext", "async_class_eagerstart")
 FLAVOURS = FLAVOURS_SYNC + FLAVOURS_ASYNC
 
 
@@ -596,6 +665,10 @@ def make_source(st: SrcState, flavour: str) -> Any:
         return AsyncSrcProxy(st)
     if flavour == "async_class_lazy":
         return AsyncSrcLazy(st)
+    if flavour == "async_class_eagerstart":
+        return AsyncSrcEagerStart(st)
+    if flavour == "async_class_plainnext":
+        return AsyncSrcPlainNext(st)
     if flavour == "async_class_delegating":
         return AsyncSrcDelegating(st)
     if flavour == "async_class_lateclose":
@@ -745,6 +818,11 @@ class VLock:
     def __bool__(self) -> bool:
         # falsy on purpose: "was a lock given?" can only be asked with ``is None``
         return False
+
+    def locked(self) -> bool:
+        # (as asyncio.Lock / trio.Lock offer it) a snapshot that is out of date at the next suspension point: "not
+        # locked right now" does not mean that acquiring will not suspend, nor that nobody else gets it first
+        return self.owner is not None
 
     async def __aenter__(self) -> "VLock":
         if self.susp_enter:
